@@ -63,6 +63,79 @@ Qed.
 Theorem refines ops : guards_free [] None ops = true -> run_trie repaired None ops = run_bmap [] ops.
 Proof. intros G. apply run_correct; auto. apply Rep_empty. Qed.
 
+(* ---- the guards are exact: inside a guard the observation differs from the ordered map's ---- *)
+(* the trim guard is exact for the key listing: inside it the listing differs from the map's *)
+Lemma filter_length_le {A} (f g : A -> bool) l :
+  (forall x, In x l -> g x = true -> f x = true) -> length (filter g l) <= length (filter f l).
+Proof.
+  induction l as [|x l IH]; intros H; simpl; auto.
+  destruct (g x) eqn:Gx.
+  - rewrite (H x (or_introl eq_refl) Gx). simpl. apply le_n_S. apply IH. intros; apply H; simpl; auto.
+  - destruct (f x); simpl; [apply le_S|]; apply IH; intros; apply H; simpl; auto.
+Qed.
+Lemma filter_length_lt {A} (f g : A -> bool) l :
+  (forall x, In x l -> g x = true -> f x = true) ->
+  (exists x, In x l /\ f x = true /\ g x = false) -> length (filter g l) < length (filter f l).
+Proof.
+  induction l as [|x l IH]; intros H (y & Hy & Fy & Gy); simpl in *; [contradiction|].
+  destruct Hy as [->|Hy].
+  - rewrite Fy, Gy. simpl. apply le_n_S. apply filter_length_le. intros; apply H; auto.
+  - destruct (g x) eqn:Gx.
+    + rewrite (H x (or_introl eq_refl) Gx). simpl. apply -> Nat.succ_lt_mono. apply IH; eauto.
+    + destruct (f x); simpl; [apply Nat.lt_lt_succ_r|]; apply IH; eauto.
+Qed.
+
+Lemma filter_kv_length pn (m : bmap) :
+  length (filter (has_prefix pn) (kv_of_bmap m)) =
+  length (filter (fun e => is_prefix pn (key_le_to_nibbles (fst e))) m).
+Proof.
+  induction m as [|[k v] m IH]; [reflexivity|].
+  change (kv_of_bmap ((k, v) :: m)) with ((key_le_to_nibbles k, v) :: kv_of_bmap m).
+  cbn [filter]. unfold has_prefix at 1. cbn [fst].
+  destruct (is_prefix pn (key_le_to_nibbles k)); cbn [length]; now rewrite IH.
+Qed.
+
+Theorem guard_trim_exact_keys t m p : Rep t m -> guard_trim m p = true ->
+  trie_keys_with_prefix t p <> Ok (bm_keys_with_prefix m p).
+Proof.
+  intros R G E. unfold guard_trim in G. apply existsb_exists in G as (e & He & Ge).
+  apply andb_true_iff in Ge as [G1 G2]. apply negb_true_iff in G2.
+  destruct t as [n|]; [|apply Rep_nil_map in R; subst; contradiction].
+  destruct R as [C E0]. simpl in E0. unfold trie_keys_with_prefix in E.
+  rewrite keys_with_prefix_spec, app_nil_l, E0 in E. inversion E as [E1]. clear E.
+  apply (f_equal (@length _)) in E1. unfold bm_keys_with_prefix in E1. rewrite !map_length in E1.
+  destruct p as [|b p']; [simpl in G2; discriminate|]. set (p := b :: p') in *.
+  set (pn := trim_zero_suffix (key_le_to_nibbles p)) in *.
+  rewrite filter_kv_length in E1. fold pn in E1.
+  change (fun e : list byte * value => is_prefix pn (key_le_to_nibbles (fst e)))
+    with (fun e : list byte * value => go_prefix p (fst e)) in E1.
+  assert (X : length (filter (fun e => bytes_prefix p (fst e)) m) < length (filter (fun e => go_prefix p (fst e)) m)).
+  { apply filter_length_lt.
+    - intros x _ Hx. now apply bytes_prefix_go_prefix.
+    - exists e. auto. }
+  lia.
+Qed.
+
+Theorem guard_get_exact t m k : Rep t m -> guard_get_exhausted t k = true -> trie_get t k <> bm_get m k.
+Proof.
+  intros R G. rewrite <- (Rep_lookup t m k R). unfold guard_get_exhausted in G.
+  destruct k as [|b k]; [|discriminate]. destruct t as [[pk lv|pk [bv|] cs]|]; try discriminate.
+  apply Nat.ltb_lt in G. cbn [trie_get lookup_opt key_le_to_nibbles]. rewrite get_branch, lookup_branch.
+  cbn [length Nat.eqb orb]. destruct pk as [|x pk]; [simpl in G; lia|]. cbn [key_eqb is_prefix]. discriminate.
+Qed.
+
+Theorem guard_limit_zero_exact t m p limit : guard_limit_zero m p limit = true ->
+  snd (trie_clear_prefix_limit t p limit) <> snd (bm_clear_prefix_limit m p limit).
+Proof.
+  unfold guard_limit_zero. intros G. apply andb_true_iff in G as [G1 G2]. apply N.eqb_eq in G1. subst limit.
+  unfold trie_clear_prefix_limit, trie_clear_prefix_limit_pinned. cbn [N.eqb snd].
+  assert (X : bm_clear_prefix_limit m p 0 = (m, 0%N, true)).
+  { rewrite forallb_forall in G2. induction m as [|[k v] m IH]; simpl; auto.
+    pose proof (G2 (k, v) (or_introl eq_refl)) as H0. cbn [fst] in H0. apply negb_true_iff in H0. rewrite H0.
+    rewrite IH; auto. intros x Hx. apply G2. simpl; auto. }
+  rewrite X. cbn [snd]. discriminate.
+Qed.
+
 (* ---- witnesses ---- *)
 Local Open Scope N_scope.
 Definition b (l : list N) : list byte := map n2b l.
